@@ -346,7 +346,15 @@ func execOp(line string) string {
 			return "ok " + t1 + " ; " + hexOrDash(b2) + " ; " + packetsTokens(ps3)
 		})
 	case "encspec":
-		return guarded(func() string { return execEnc(kind, NewR(args)) })
+		return guarded(func() string {
+			out := execEnc(kind, NewR(args))
+			if kind == "XR" && strings.HasPrefix(out, "ok ") {
+				if f := strings.Fields(out); len(f) >= 2 {
+					return "ok " + f[1]
+				}
+			}
+			return out
+		})
 	case "framed":
 		return guarded(func() string {
 			p := getBody(NewR(args), kind)
